@@ -26,8 +26,17 @@ import (
 )
 
 // node family for the copier (recursion through pointer, slice, map, array, interface)
+type GEdge struct {
+	Label string
+	To    *GN
+	Via   map[string]*GN
+}
+
 type GN struct {
 	Name   string
+	Edges  [2]GEdge     // array of structs holding references
+	Grid   [2][1]*GN    // nested arrays
+
 	Next   *GN
 	Kids   []*GN
 	M      map[string]*GN
@@ -48,8 +57,15 @@ type GCfg struct {
 }
 
 // node family accepted by Pointerify (no pointer-recursive struct type, no interface value cycles)
+type PEdge struct {
+	Label string
+	To    *PN
+}
+
 type PN struct {
 	Name   string
+	Edges  [2]PEdge
+
 	Kids   []*PN
 	M      map[string]*PN
 	Arr    [2]*PN
@@ -352,6 +368,15 @@ func genGraph(r *RNG) *GCfg {
 		if r.Chance(30) {
 			nd.Arr = [2]*GN{pick(), pick()}
 		}
+		if r.Chance(35) {
+			nd.Edges[0] = GEdge{Label: "e", To: pick()}
+			if r.Chance(50) {
+				nd.Edges[1] = GEdge{To: nd, Via: sharedM}
+			}
+		}
+		if r.Chance(20) {
+			nd.Grid = [2][1]*GN{{pick()}, {nd}}
+		}
 		switch x := r.Intn(100); {
 		case x < 20:
 			nd.Any = pick() // may be a typed nil pointer
@@ -446,6 +471,9 @@ func genPGraph(r *RNG) *PCfg {
 		}
 		if r.Chance(30) {
 			nd.Arr = [2]*PN{pick(), pick()}
+		}
+		if r.Chance(35) {
+			nd.Edges = [2]PEdge{{Label: "e", To: pick()}, {To: nd}}
 		}
 		if r.Chance(40) {
 			nd.Shared = sh
